@@ -13,7 +13,7 @@ import (
 
 func genC10(rt *rapid.T) Scenario {
 	return genScenario(rt, Profile{MinTargets: 1, MaxTargets: 2, MinSets: 2, MaxSets: 6, MultiTarget: true, Offline: true,
-		Faults: true, Transient: true, Preempt: 2, Drawn: true})
+		Faults: true, Transient: true, Standby: true, Preempt: 2, Drawn: true})
 }
 
 // checkMastershipAtQuiescence: the master is empty or names an existing
@@ -53,6 +53,9 @@ func checkMastershipAtQuiescence(r *Run) error {
 				if string(cid) == m {
 					n++
 				}
+			}
+			if len(live) > 1 {
+				r.X.Class("idle-with-standby-connection")
 			}
 			if n != 1 {
 				return vstat.Violf("the master of %s is not one of its live connections; state %s", t, r.W.DescribeState())
